@@ -52,6 +52,13 @@ def run(ctx):
     RF.check_plan_invariants(ctx, 'R6.3')
     check_registry(ctx)
     check_serializer(ctx)
+    from .. import rules_lexer as RL
+    ctx.rule('R6.9', 'literals and comments reach the filters as single tokens for every input form: the input is scanned in one piece', floor=3)
+    RL.check_whole_text(ctx, 'R6.9')
+    from . import c10
+    c10.check_stripws_simulation(ctx, 'R6.10')
+    ctx.rule('R6.11', 'the serializer changes nothing but unquoted line ends and blanks at line ends (sample texts interpreted)', floor=1)
+    RF.check_serializer_sim(ctx, 'R6.11')
     ctx.rule('R6.8', 'operator spacing: the blank put behind / in front of an operator does not change how the text lexes', floor=1)
     RF.check_operator_spacing_tokens(ctx, 'R6.8')
     ctx.rule('R6.7', 'statement edges: removing the first/last child of a statement cannot fuse it with the neighbouring statement', floor=1)
